@@ -484,7 +484,10 @@ func (s *Storage) SaveServiceGCSafePoint(ssp *ServiceSafePoint) error {
 		return errors.New("TTL of gc_worker's service safe point must be infinity")
 	}
 
-	key := serviceGCSafePointKey(ssp.ServiceID)
+	key, err := serviceGCSafePointKey(ssp.ServiceID)
+	if err != nil {
+		return err
+	}
 	value, err := json.Marshal(ssp)
 	if err != nil {
 		return err
@@ -498,15 +501,24 @@ func (s *Storage) RemoveServiceGCSafePoint(serviceID string) error {
 	if serviceID == gcWorkerServiceSafePointID {
 		return errors.New("cannot remove service safe point of gc_worker")
 	}
-	key := serviceGCSafePointKey(serviceID)
+	key, err := serviceGCSafePointKey(serviceID)
+	if err != nil {
+		return err
+	}
 	return s.Remove(key)
 }
 
-// serviceGCSafePointKey returns the key of a service's GC safepoint. The service id is appended as it is:
-// path.Join would clean it, and an id such as "x/../gc_worker" or ".." would then address the record of
-// another service or the GC safepoint itself.
-func serviceGCSafePointKey(serviceID string) string {
-	return path.Join(gcPath, "safe_point", "service") + "/" + serviceID
+// serviceGCSafePointKey returns the key of a service's GC safepoint: the service id appended to the prefix.
+// A service id that path cleaning would change ("x/../gc_worker", "./gc_worker", "gc_worker/", "..") is
+// refused: path.Join - here or in the kv layer, which joins the key to its root path once more - would
+// make it address the record of another service, the GC safepoint itself or a key outside the prefix.
+func serviceGCSafePointKey(serviceID string) (string, error) {
+	prefix := path.Join(gcPath, "safe_point", "service")
+	key := prefix + "/" + serviceID
+	if path.Join(prefix, serviceID) != key {
+		return "", errors.Errorf("invalid service id %q of service safe point", serviceID)
+	}
+	return key, nil
 }
 
 func (s *Storage) initServiceGCSafePointForGCWorker(initialValue uint64) (*ServiceSafePoint, error) {
